@@ -16,7 +16,7 @@ from .. import core, gapspace as g, obs
 
 ALPHA = ["{", "}", "[", "]", "(", ")", ";", ",", ":", "@", "=", ".", "?", "!", "-", "+", "++", "//", "let", "in", "if", "then", "else", "with", "assert", "rec", "inherit", "or", "x", "1", '"s"', "''s''", "./p", "# c\n", "/*c*/", "${"]
 INSERT = ["{", "}", "[", "]", "(", ")", ";", ",", ":", "@", "=", ".", "?", "!", "-", "++", "let", "in", "if", "then", "else", "with", "assert", "rec", "inherit", "or", "x", '"', "''", "${", "/*"]
-WRAPS = [("", ""), ("\n", ""), ("  ", "  "), ("\t\n", "\n\n"), ("\r\n ", " \r\n")]
+WRAPS = [("", ""), ("\n", ""), ("  ", "  "), ("\t\n", "\n\n"), ("\r\n ", " \r\n"), ("", "\r\n\r\n"), ("\x0c\n", "\n\x0b\n\n")]
 VALID_DOC = "{ b = 2; }\n"
 
 
